@@ -1,6 +1,7 @@
 import SkyllhModel.Proto
 import SkyllhModel.Model.Livetime
-open Proto Livetime
+import SkyllhModel.Model.LivetimeR7
+open Proto Livetime LivetimeR7
 
 /-  requests (floats as IEEE bit patterns; `N` = Python `None`):
       ison    <edges> <t>
@@ -14,10 +15,41 @@ open Proto Livetime
       grl     <starts> <stops>           -> flat edges held by I3Livetime.from_grl_data | ERR
       grlclip <starts> <stops>           -> the same after clip_grl_start_times
       gentime <edges> <tmin|N> <tmax|N> <u>
+    round 7 (Model/LivetimeR7.lean; `reqNdim reqCols` are passed by the harness from the generated constants):
+      assertint <reqNdim> <reqCols> <isNdarray> <isF64> <shape> <data>   -> OK | <error name>
+      construct <reqNdim> <reqCols> <isNdarray> <isF64> <shape> <data>   -> flat rows | <error name>
+      props     <edges>                  -> <n> <time_start|ERR> <time_stop|ERR> <window a,b|ERR> <livetime>
+      intlt     S <x> | L <edges>        -> get_integrated_livetime
+      isonv     <edges> <ts>
+      uptoarg   <edges> S <t> | Q <ts>   -> S:<x> | Q:<xs> | ERR
+      drawmany  <edges> <tmin|N> <tmax|N> <us>
+      grlfiles  <starts|starts|..> <stops|stops|..>        (files separated by `|`)
+      i3ds      <isI3> <nfiles> <starts|..> <stops|..>     -> <error name> | ERR | flat rows
+      hist      <reqNdim> <reqCols> <edges> <op> <op> ...   ops: set:<nd>:<f64>:<shape>:<data> n win lt ison:<t> upto:<t> btw:<a>:<b> draw:<a|N>:<b|N>:<u>
+                                          -> <edges held at the end> <answer>;<answer>;...
+      subsetfull <dataOk> <ltOk> <edges> <expT> <mcT> <t0> <t1> -> <error name> | <mask> <mask> <flat> <livetime>
 -/
 def pairs (s : String) : List (Float × Float) := unflat (pList pF s)
 
 def pOpt (s : String) : Option Float := if s == "N" then none else some (pF s)
+
+def errName : Err → String
+  | .typeNotNdarray => "TypeError:ndarray" | .typeNotF64 => "TypeError:float64"
+  | .valNdim => "ValueError:ndim" | .valCols => "ValueError:cols" | .valNotMonotone => "ValueError:monotone"
+  | .typeNotI3Dataset => "TypeError:I3Dataset" | .valNoGrlFiles => "ValueError:nogrl"
+  | .typeData => "TypeError:data" | .typeLivetime => "TypeError:livetime" | .index => "IndexError"
+
+def pFiles (n : Nat) (ss es : String) : List (List (Float × Float)) :=
+  if n == 0 then [] else
+  ((ss.splitOn "|").zip (es.splitOn "|")).map (fun (a, b) => (pList pF a).zip (pList pF b))
+
+def fOptF : Option Float → String
+  | some x => fF x
+  | none => "ERR"
+
+def fOptL : Option (List Float) → String
+  | some xs => fListD fF xs
+  | none => "ERR"
 
 def answer (line : String) : String :=
   match tokens line with
@@ -54,6 +86,73 @@ def answer (line : String) : String :=
       match generateTime (pairs es) (pOpt tmin) (pOpt tmax) (pF u) with
       | some x => fF x
       | none => "ERR"
+  | ["assertint", rn, rc, nd, f64, sh, data] =>
+      match assertIntegrity (pN rn) (pN rc) ⟨pB nd, pB f64, pList pN sh, pList pF data⟩ with
+      | .ok () => "OK"
+      | .error e => errName e
+  | ["construct", rn, rc, nd, f64, sh, data] =>
+      match construct (pN rn) (pN rc) ⟨pB nd, pB f64, pList pN sh, pList pF data⟩ with
+      | .ok r => fListD fF (flat r)
+      | .error e => errName e
+  | ["props", es] =>
+      let ivs := pairs es
+      let w := match timeWindow ivs with
+        | some (a, b) => s!"{fF a},{fF b}"
+        | none => "ERR"
+      s!"{nIntervals ivs} {fOptF (timeStart ivs)} {fOptF (timeStop ivs)} {w} {fF (livetimeSeq ivs)}"
+  | ["intlt", "S", x] => fF (integratedLivetime (Sum.inl (pF x) : Sum Float (List (Float × Float))))
+  | ["intlt", "L", es] => fF (integratedLivetime (Sum.inr (pairs es) : Sum Float (List (Float × Float))))
+  | ["isonv", es, ts] => fListD fB (isOnVec (pairs es) (pList pF ts))
+  | ["uptoarg", es, "S", t] => match uptoArg (pairs es) (.scalar (pF t)) with
+      | some (.scalar x) => s!"S:{fF x}"
+      | some (.seq xs) => s!"Q:{fListD fF xs}"
+      | none => "ERR"
+  | ["uptoarg", es, "Q", ts] => match uptoArg (pairs es) (.seq (pList pF ts)) with
+      | some (.scalar x) => s!"S:{fF x}"
+      | some (.seq xs) => s!"Q:{fListD fF xs}"
+      | none => "ERR"
+  | ["drawmany", es, tmin, tmax, us] => fOptL (drawMany (pairs es) (pOpt tmin) (pOpt tmax) (pList pF us))
+  | ["grlfiles", ss, es] => match fromGrlFiles (pFiles 1 ss es) with
+      | some r => fListD fF (flat r)
+      | none => "ERR"
+  | ["i3ds", isI3, n, ss, es] => match fromI3Dataset (pB isI3) (pFiles (pN n) ss es) with
+      | .error e => errName e
+      | .ok (some r) => fListD fF (flat r)
+      | .ok none => "ERR"
+  | ["subsetfull", dOk, lOk, es, et, mt, t0, t1] =>
+      match dataSubsetFull (pB dOk) (pB lOk) (pairs es) (pList pF et) (pList pF mt) (pF t0) (pF t1) with
+      | .ok (m1, m2, r, lt) => s!"{fListD fB m1} {fListD fB m2} {fListD fF (flat r)} {fF lt}"
+      | .error e => errName e
+  | "hist" :: rn :: rc :: es :: ops =>
+      let fAns : AnsR7 Float → String
+        | .ok => "OK"
+        | .err e => errName e
+        | .nat n => toString n
+        | .window (some (a, b)) => s!"{fF a},{fF b}"
+        | .window none => "IndexError"
+        | .val x => fF x
+        | .base (.bool b) => fB b
+        | .base (.ivs (some r)) => fListD fF (flat r)
+        | .base (.ivs none) => "ERR"
+        | .base (.val (some x)) => fF x
+        | .base (.val none) => "ERR"
+        | .base _ => "none"
+      let pOp (t : String) : Option (OpR7 Float) :=
+        match t.splitOn ":" with
+        | ["set", nd, f64, sh, data] => some (.setArr ⟨pB nd, pB f64, pList pN sh, pList pF data⟩)
+        | ["n"] => some .qN
+        | ["win"] => some .qWindow
+        | ["lt"] => some .qLivetime
+        | ["ison", t] => some (.base (.qIsOn (pF t)))
+        | ["upto", t] => some (.base (.qUpto (pF t)))
+        | ["btw", a, b] => some (.base (.qBetween (pF a) (pF b)))
+        | ["draw", a, b, u] => some (.base (.qDraw (pOpt a) (pOpt b) (pF u)))
+        | _ => none
+      match ops.mapM pOp with
+      | none => "bad-op"
+      | some os =>
+        let (h, as) := objRunR7 (pN rn) (pN rc) (pairs es) os
+        s!"{fListD fF (flat h)} {String.intercalate ";" (as.map fAns)}"
   | _ => "bad-op"
 
 def main : IO Unit := do loop (← IO.getStdin) answer
